@@ -14,6 +14,7 @@ from __future__ import annotations
 
 import ast
 import inspect
+import math
 
 import numpy as np
 
@@ -443,6 +444,45 @@ def sec_convolution_point(rep):
         rep.check(f"C01/convolution_point/{site.family}/{site.leaf}.{site.cls.__name__}", case, sy, site.pre(sy), max_paths=16)
 
 
+def sec_eko_instance(rep, seed):
+    """Bounded stand-in for A-eko on real eko interpolators (log / linear, degree 1..3): the
+    values the integrands read, evaluate_x(u, areas_representation), are the basis function's own
+    values; supports are unions of sorted areas; is_below_x(x) <=> x beyond the last area."""
+    import random
+
+    from eko import interpolation
+    from eko.interpolation import InterpolatorDispatcher, XGrid
+
+    rnd = random.Random(seed)
+    bad = []
+    n = 0
+    for is_log in (True, False):
+        for deg in (1, 2, 3):
+            interp = InterpolatorDispatcher(XGrid([1e-3, 1e-2, 0.1, 0.3, 0.6, 1.0], is_log), deg, mode_N=False)
+            for j, bf in enumerate(interp):
+                borders = [(a.xmin, a.xmax) for a in bf.areas]
+                if borders != sorted(borders) or any(lo >= hi for lo, hi in borders):
+                    bad.append(("areas not sorted", is_log, deg, j))
+                hi = max(b[1] for b in borders)
+                hi = math.exp(hi) if is_log else hi
+                for _ in range(20):
+                    u = rnd.uniform(1e-3, 1.0)
+                    n += 1
+                    ev = interpolation.log_evaluate_x(u, bf.areas_representation) if is_log else interpolation.evaluate_x(u, bf.areas_representation)
+                    if abs(ev - bf(u)) > 1e-12 * max(1.0, abs(ev)):
+                        bad.append(("evaluate_x != basis", is_log, deg, j, u))
+                    if bf.is_below_x(u) != (hi <= u) and abs(hi - u) > 1e-12:
+                        bad.append(("is_below_x", is_log, deg, j, u))
+            # cardinality: basis_j(x_k) = delta_jk
+            for k, xk in enumerate(interp.xgrid.raw):
+                for j, bf in enumerate(interp):
+                    if abs(bf(xk) - (1.0 if j == k else 0.0)) > 1e-10:
+                        bad.append(("cardinal", is_log, deg, j, k))
+    o = ob_eval("C01/A-eko-instance(real eko interpolators)", not bad, kind="bounded", detail=f"{n} evaluations; violations: {bad[:3]}")
+    o.bounded = True
+    rep.add(o)
+
+
 def sec_selfcheck(rep, seed):
     """Canary: an integrand that drops the subtraction term of the plus distribution must be refuted."""
     from pvc.core import Report
@@ -479,5 +519,6 @@ def run(rep, tier, seed, only=None):
             continue
         rep.add(guarded(f"C01/{nm}", lambda f=f: (f(rep), [])[1]))
     if not only and rep.replay_target is None:
+        rep.add(guarded("C01/eko", lambda: (sec_eko_instance(rep, seed), [])[1]))
         rep.add(guarded("C01/selfcheck", lambda: (sec_selfcheck(rep, seed), [])[1]))
     rep.extra["rule"] = "cases = presence of reg/sing/loc x interpolation mode x support position; kernel-list and grid shapes 0..3 (lifted by the loop lemmas); every partonic channel class for the convolution point; x, z, args symbolic"
